@@ -35,7 +35,8 @@ def gen_cases(ctx):
             if made >= per:
                 break
             q = rng.choice([1, 2, 3, 4, 5])
-            ch = gens.gen_chain(rng, enz, q, tmin=2, tmax=12, bmax=10)
+            mirror = rng.random() < 0.15
+            ch = gens.gen_chain(rng, enz, q, tmin=2, tmax=12, bmax=10, vup_mirrors_start=mirror)
             if ch is None:
                 continue
             made += 1
@@ -43,6 +44,14 @@ def gen_cases(ctx):
             order = list(range(1, q + 1))
             rng.shuffle(order)
             formula = ch["vector"]["up"] + ch["vector"]["body"] + "".join(m["up"] + m["t"] for m in ch["modules"])
+            prime = gens.siblings(ctx, enz) if made % 2 else []
+            vcls, mcls = gens.generic_spec("vector", enz), gens.generic_spec("module", enz)
+            if made % 3 == 0:
+                # kits alternate enzymes between levels by deriving a class and overriding its cutter: the derived
+                # classes are used after their parents (over another enzyme of the family) have been
+                parent = rng.choice([e for e in enzymes if e["site"] != enz["site"]])
+                vcls, mcls = gens.sub_cutter_spec("vector", parent, enz), gens.sub_cutter_spec("module", parent, enz)
+                prime = prime + [vcls["parent"], mcls["parent"]]
             # every rotation of one element (all elements in thorough), the others at random origins
             targets = range(len(elems)) if not ctx.quick else [rng.randrange(0, len(elems))]
             for e_i in targets:
@@ -54,15 +63,15 @@ def gen_cases(ctx):
                     seqs[e_i] = gens.rotate(elems[e_i]["seq"], k)
                     cases.append({"enz": enz["name"], "q": q, "expected": ch["expected"], "formula": formula,
                                   "lengths": [len(m["frag"]) for m in ch["modules"]] + [len(ch["vector"]["frag"])],
-                                  "elem": e_i, "k": k,
-                                  "vector": {"cls": gens.generic_spec("vector", enz), "seq": seqs[0]},
-                                  "modules": [{"cls": gens.generic_spec("module", enz), "seq": seqs[i]} for i in order]})
+                                  "elem": e_i, "k": k, "prime": prime, "mirror": mirror,
+                                  "vector": {"cls": vcls, "seq": seqs[0]},
+                                  "modules": [{"cls": mcls, "seq": seqs[i]} for i in order]})
     return cases
 
 
 def impl_assembly(case):
     from harness import implutil
-    return implutil.run_assembly({"vector": case["vector"], "modules": case["modules"], "typed": False})
+    return implutil.run_assembly({"vector": case["vector"], "modules": case["modules"], "typed": False, "prime": case.get("prime")})
 
 
 def run(ctx):
@@ -77,7 +86,13 @@ def run(ctx):
         ctx.evaluations += 1
         ctx.count("enzyme:" + c["enz"])
         ctx.count("chain:%d" % c["q"])
-        inp = {k: c[k] for k in ("enz", "q", "expected", "formula", "lengths", "elem", "k", "vector", "modules")}
+        inp = {k: c[k] for k in ("enz", "q", "expected", "formula", "lengths", "elem", "k", "vector", "modules", "prime")}
+        if c["mirror"]:
+            ctx.count("overhangs:vector-upstream-mirrors-a-module-start")
+        if c["prime"]:
+            ctx.count("history:related-classes-used-first")
+        if c["vector"]["cls"]["kind"] == "sub":
+            ctx.count("classes:derived-with-overridden-cutter")
         if o["out"] != "product":
             ctx.violations.append({"signature": "C01:no-product:" + o["out"],
                                    "what": "a complete well-formed assembly (%s, chain of %d, element %d rotated by %d) ends with %s %s"
@@ -100,7 +115,7 @@ def run(ctx):
                 "product": obs[0].get("seq")})
     bad = common.coq_eval_cases(ctx, "asm", IMPORTS, terms, "check_raw", per_file=250)
     for b in bad:
-        ctx.disagreements.append({"case": {k: cases[b][k] for k in ("enz", "q", "elem", "k", "vector", "modules", "expected", "formula", "lengths")},
+        ctx.disagreements.append({"case": {k: cases[b][k] for k in ("enz", "q", "elem", "k", "vector", "modules", "expected", "formula", "lengths", "prime")},
                                   "impl": {k: obs[b].get(k) for k in ("out", "seq", "unused", "oh")},
                                   "observable": "outcome and product of vector.assemble vs Pipeline.assemble_raw", "model_fn": "Pipeline.assemble_raw"})
 
